@@ -1,7 +1,7 @@
 from __future__ import annotations
 
 from ._bit_vector import BitVector, BitOrder
-from ._integer import Integer
+from ._integer import Integer, _trunc_div
 from ._boolean import Null, Full
 
 from ._intrinsic import _intrinsic
@@ -288,7 +288,7 @@ class Signed(BitVector):
 
         if rhs == 0:
             return Signed[result_width]()
-        return Signed[result_width](int(lhs / rhs))
+        return Signed[result_width](_trunc_div(lhs, rhs))
 
     @_intrinsic
     def _cohdl_rtruncdiv_(self, lhs: Signed) -> Signed:
@@ -305,7 +305,7 @@ class Signed(BitVector):
 
         if rhs == 0:
             return Signed[result_width]()
-        return Signed[result_width](int(lhs / rhs))
+        return Signed[result_width](_trunc_div(lhs, rhs))
 
     @_intrinsic
     def __mod__(self, rhs: Signed) -> Signed:
@@ -363,7 +363,7 @@ class Signed(BitVector):
         if rhs == 0:
             return Signed[result_width]()
 
-        return Signed[result_width](lhs - rhs * int(lhs / rhs))
+        return Signed[result_width](lhs - rhs * _trunc_div(lhs, rhs))
 
     @_intrinsic
     def _cohdl_rrem_(self, lhs: Signed) -> Signed:
@@ -383,7 +383,7 @@ class Signed(BitVector):
         if rhs == 0:
             return Signed[result_width]()
 
-        return Signed[result_width](lhs - rhs * int(lhs / rhs))
+        return Signed[result_width](lhs - rhs * _trunc_div(lhs, rhs))
 
     @_intrinsic
     def __lshift__(self, rhs) -> Signed:
